@@ -231,17 +231,23 @@ def qvecLe (q1 : QKind) (d1 : Option Dir) (k1 : VKind) (o1 : Order) (w1 : Nat)
 
 /-! ## C3 linearisation (`type.__new__` -> `mro()`) -/
 
-def inTail (x : Nat) (l : List Nat) : Bool := match l with | [] => false | _ :: t => t.contains x
+def inTail {α : Type} [DecidableEq α] (x : α) (l : List α) : Bool := match l with | [] => false | _ :: t => t.contains x
 
 /-- first head that is in no tail -/
-def pickHead (ls : List (List Nat)) : List (List Nat) → Option Nat
+def pickHead {α : Type} [DecidableEq α] (ls : List (List α)) : List (List α) → Option α
   | [] => none
   | l :: rest =>
     match l with
     | [] => pickHead ls rest
     | h :: _ => if ls.any (inTail h) then pickHead ls rest else some h
 
-def c3merge : Nat → List (List Nat) → Option (List Nat)
+/-- remove a chosen head from the front of a list -/
+def dropHead {α : Type} [DecidableEq α] (h : α) : List α → List α
+  | [] => []
+  | x :: t => if x = h then t else x :: t
+
+/-- C3 merge (generic in the element type: class ids in the table, parameter tuples in the specification) -/
+def c3merge {α : Type} [DecidableEq α] : Nat → List (List α) → Option (List α)
   | 0, _ => none
   | f + 1, ls =>
     let ls := ls.filter (· ≠ [])
@@ -249,22 +255,27 @@ def c3merge : Nat → List (List Nat) → Option (List Nat)
     else match pickHead ls ls with
       | none => none
       | some h =>
-        match c3merge f (ls.map (fun l => match l with | [] => [] | x :: t => if x = h then t else x :: t)) with
+        match c3merge f (ls.map (dropHead h)) with
         | none => none
         | some r => some (h :: r)
 
-/-- MRO of every class of the table, computed in creation order like CPython does
-    (`mro(C) = C :: merge(mro(B1), .., mro(Bn), [B1..Bn])`) -/
+/-- the MRO of an earlier class -/
+def lookupMro (tbl : List (Option (List Nat))) (b : Nat) : Option (List Nat) :=
+  match tbl[b]? with | some (some m) => some m | _ => none
+
+/-- `mro()` of a new class `c`, given the MROs of the classes created before it:
+    `C :: merge(mro(B1), .., mro(Bn), [B1..Bn])`; `none` when the merge gets stuck (TypeError in Python) -/
+def mroEntry (tbl : List (Option (List Nat))) (c : Cls) : Option (List Nat) :=
+  let ms := c.bases.map (lookupMro tbl)
+  if ms.all Option.isSome then
+    let lists := ms.filterMap id ++ [c.bases]
+    match c3merge ((lists.map List.length).sum + 1) lists with
+    | some m => some (tbl.length :: m)
+    | none => none
+  else none
+
+/-- MRO of every class of the table, computed in creation order like CPython does -/
 def mroTable (st : St) : List (Option (List Nat)) :=
-  st.foldl (fun tbl c =>
-    let ms := c.bases.map (fun b => match tbl[b]? with | some (some m) => some m | _ => none)
-    let r : Option (List Nat) :=
-      if ms.all Option.isSome then
-        let lists := ms.filterMap id ++ [c.bases]
-        match c3merge ((lists.map List.length).sum + 1) lists with
-        | some m => some (tbl.length :: m)
-        | none => none
-      else none
-    tbl ++ [r]) []
+  st.foldl (fun tbl c => tbl ++ [mroEntry tbl c]) []
 
 end CohdlVerif.C13
